@@ -22,6 +22,7 @@ type OpC10 struct {
 	Num     byte   `json:"num,omitempty"`
 	Exp     byte   `json:"exp,omitempty"`
 	SamePTS bool   `json:"same_pts,omitempty"` // reuse the previous signal time instead of advancing
+	OldPTS  int    `json:"old_pts,omitempty"`  // process: use the signal time that was current this many distinct signal times ago (a late sibling)
 	Decoded bool   `json:"decoded,omitempty"`  // build the descriptor by decoding a reference encoding
 	Idx     int    `json:"idx,omitempty"`      // close: which previously seen descriptor (mod count); -1 = a fresh one
 	// sub-segment fields (types 0x34/0x36 only)
@@ -74,6 +75,9 @@ func genC10Op(t *rapid.T) OpC10 {
 		o.Num = byte(rapid.IntRange(0, 2).Draw(t, "num"))
 		o.Exp = byte(rapid.IntRange(0, 2).Draw(t, "exp"))
 		o.SamePTS = rapid.IntRange(0, 3).Draw(t, "same-pts") == 0
+		if o.Kind == "process" && rapid.IntRange(0, 9).Draw(t, "late-sibling") == 0 {
+			o.OldPTS = rapid.IntRange(1, 12).Draw(t, "old-pts")
+		}
 		o.Decoded = rapid.IntRange(0, 3).Draw(t, "decoded") == 0
 		if (o.Type == 0x34 || o.Type == 0x36) && rapid.Bool().Draw(t, "has-sub") {
 			o.HasSub = true
@@ -102,6 +106,29 @@ func genC10Op(t *rapid.T) OpC10 {
 }
 
 func genC10(t *rapid.T) CaseC10 {
+	if rapid.IntRange(0, 5).Draw(t, "late-sibling-history") == 0 {
+		// k descriptors on k different signal times, then a late sibling on one of the earlier signal times, processed twice in
+		// a row (a tracker that remembers a bounded number of signal times is exercised at and around its bound), then anything
+		k := rapid.IntRange(2, 14).Draw(t, "distinct-times")
+		var ops []OpC10
+		for i := 0; i < k; i++ {
+			o := genC10Op(t)
+			o.Kind, o.SamePTS, o.OldPTS = "process", false, 0
+			if o.Type == 0 && o.Event == 0 {
+				o.Type, o.Event = rapid.SampledFrom(c10Alphabet).Draw(t, "fill-type"), uint32(rapid.IntRange(1, 3).Draw(t, "fill-event"))
+			}
+			ops = append(ops, o)
+		}
+		late := genC10Op(t)
+		late.Kind, late.SamePTS = "process", false
+		if late.Type == 0 && late.Event == 0 {
+			late.Type, late.Event = rapid.SampledFrom(c10Alphabet).Draw(t, "late-type"), uint32(rapid.IntRange(1, 3).Draw(t, "late-event"))
+		}
+		late.OldPTS = rapid.IntRange(1, k-1).Draw(t, "late-old")
+		ops = append(ops, late, OpC10{Kind: "reprocess"})
+		ops = append(ops, rapid.SliceOfN(rapid.Custom(genC10Op), 0, 6).Draw(t, "late-tail")...)
+		return CaseC10{Ops: ops}
+	}
 	n := rapid.IntRange(1, 40).Draw(t, "steps")
 	return CaseC10{Ops: rapid.SliceOfN(rapid.Custom(genC10Op), n, n).Draw(t, "ops")}
 }
@@ -168,6 +195,8 @@ func checkC10(c CaseC10, x *hx.Ctx) (fail *hx.Failure) {
 	var last *c10Desc   // most recently processed (for immediate re-processing)
 	lastAccepted := false
 	pts := uint64(1000)
+	ptsTop := pts        // the latest signal time so far (pts itself goes back for a late sibling)
+	var ptsHist []uint64 // the distinct signal times in the order they were first used
 	perPTS := 0
 	nextIndex := 0
 	var hist []string
@@ -281,15 +310,22 @@ func checkC10(c CaseC10, x *hx.Ctx) (fail *hx.Failure) {
 				d = last
 			} else {
 				hasPTS := o.Kind == "process"
-				if hasPTS {
+				late := hasPTS && o.OldPTS > 0 && len(ptsHist) > o.OldPTS
+				if late {
+					// a late sibling: a descriptor on a signal time that was current OldPTS distinct signal times ago
+					pts, perPTS = ptsHist[len(ptsHist)-1-o.OldPTS], maxPer
+					interesting = true
+				} else if hasPTS {
 					if !(o.SamePTS && perPTS < maxPer) {
-						pts += 90000
+						pts = ptsTop + 90000
+						ptsTop = pts
+						ptsHist = append(ptsHist, pts)
 						perPTS = 0
 					}
 					perPTS++
 				}
 				var nd *c10Desc
-				if hasPTS && !o.Decoded && o.SamePTS && sharedSig != nil && sharedPTS == pts && len(sharedList) < 4 && maxPer <= 5 {
+				if hasPTS && !late && !o.Decoded && o.SamePTS && sharedSig != nil && sharedPTS == pts && len(sharedList) < 4 && maxPer <= 5 {
 					// attach to the SAME signal object as the previous API-built descriptor of this PTS
 					obj := scte35.CreateSegmentationDescriptor()
 					obj.SetTypeID(scte35.SegDescType(o.Type))
